@@ -78,6 +78,15 @@ def build_inputs(ctx, case, env):
 def install_readers(inp):
     def rd(path, df_name):
         path = str(path)
+        if path not in inp['names']:
+            # a staged copy of an input file (copy_data_over): find the
+            # original through the placeholder's token lineage (prefix)
+            import os
+            base = os.path.basename(path)
+            for orig in inp['names']:
+                if base.startswith(os.path.basename(orig)):
+                    path = orig
+                    break
         if df_name == 'obs':
             return FakeDF(list(inp['names'][path]))
         if df_name == 'var':
@@ -110,7 +119,8 @@ def run_stage(ctx, case, env, inp, faults=False):
                 data_path_list=list(inp['paths']), taxonomy_tree=tree,
                 output_path=out, rows_at_a_time=rat,
                 normalization='raw' if inp['raw'] else 'log2CPM',
-                tmp_dir=env.dir, n_processors=nproc)
+                tmp_dir=env.dir, n_processors=nproc,
+                copy_data_over=bool(case.get('copy_data_over')))
         else:
             PFA.precompute_summary_stats_from_h5ad_and_lookup(
                 data_path_list=list(inp['paths']),
@@ -118,7 +128,8 @@ def run_stage(ctx, case, env, inp, faults=False):
                 cluster_to_output_row=c2r,
                 output_path=out, rows_at_a_time=rat,
                 normalization='raw' if inp['raw'] else 'log2CPM',
-                tmp_dir=env.dir, n_processors=nproc)
+                tmp_dir=env.dir, n_processors=nproc,
+                copy_data_over=bool(case.get('copy_data_over')))
     except Exception as e:
         raised = e
     return {'out': out, 'tree': tree, 'raised': raised, 'c2r': c2r, 'nproc': nproc,
